@@ -475,12 +475,42 @@ func moveOutFile(w *bytes.Buffer, param *syntax.StructMember,
 	if err := os.MkdirAll(outsPath, 0775); err != nil {
 		return err
 	}
+	// A directory which holds this file may already have been moved to
+	// outs/, with a symlink left in its place.  The file stays where it is,
+	// as a part of that output, and outs/ gets a link to it.
+	if physPath, ok := movedToOuts(filePath, pipestancePath); ok {
+		if absOut, err := filepath.Abs(outPath); err != nil {
+			return err
+		} else if relPath, err := filepath.Rel(filepath.Dir(absOut), physPath); err != nil {
+			return err
+		} else if err := os.Symlink(relPath, outPath); err != nil {
+			if _, err := w.Write(value); err != nil {
+				return err
+			}
+			return err
+		}
+		if b, err := json.Marshal(outPath); err != nil {
+			return err
+		} else {
+			_, err := w.Write(b)
+			return err
+		}
+	}
+	isDir := false
+	if info, err := os.Stat(filePath); err == nil {
+		isDir = info.IsDir()
+	}
 	// If source file exists, move it to outs/
 	if err := os.Rename(filePath, outPath); err != nil {
 		if _, err := w.Write(value); err != nil {
 			return err
 		}
 		return err
+	}
+	if isDir {
+		// Relative links which files moved out of this directory earlier
+		// left behind were relative to the place the directory had.
+		relinkMovedDir(filePath, outPath)
 	}
 
 	// Generate the relative path from files/ to outs/
@@ -509,6 +539,63 @@ func moveOutFile(w *bytes.Buffer, param *syntax.StructMember,
 		return err
 	}
 	return err
+}
+
+// If the directory holding the file at filePath is, physically, below the
+// top-level outs directory - because it, or a directory above it, was moved
+// there and replaced with a symlink - returns the physical path of the file.
+func movedToOuts(filePath, pipestancePath string) (string, bool) {
+	physDir, err := filepath.EvalSymlinks(filepath.Dir(filePath))
+	if err != nil {
+		return "", false
+	}
+	physOuts, err := filepath.EvalSymlinks(path.Join(pipestancePath, "outs"))
+	if err != nil {
+		return "", false
+	}
+	if physDir, err = filepath.Abs(physDir); err != nil {
+		return "", false
+	}
+	if physOuts, err = filepath.Abs(physOuts); err != nil {
+		return "", false
+	}
+	if rel, err := filepath.Rel(physOuts, physDir); err != nil ||
+		rel == ".." || strings.HasPrefix(rel, "../") {
+		return "", false
+	}
+	return filepath.Join(physDir, filepath.Base(filePath)), true
+}
+
+// After a directory was moved from oldDir to newDir, re-target relative
+// symlinks in it which were valid relative to the old location and are
+// dangling relative to the new one.
+func relinkMovedDir(oldDir, newDir string) {
+	_ = filepath.WalkDir(newDir, func(p string, d os.DirEntry, err error) error {
+		if err != nil || d.Type()&os.ModeSymlink == 0 {
+			return nil
+		}
+		target, err := os.Readlink(p)
+		if err != nil || filepath.IsAbs(target) {
+			return nil
+		}
+		if _, err := os.Stat(p); err == nil {
+			return nil
+		}
+		rel, err := filepath.Rel(newDir, p)
+		if err != nil {
+			return nil
+		}
+		oldTarget := filepath.Join(filepath.Dir(filepath.Join(oldDir, rel)), target)
+		if _, err := os.Stat(oldTarget); err != nil {
+			return nil
+		}
+		if newTarget, err := filepath.Rel(filepath.Dir(p), oldTarget); err == nil {
+			if err := os.Remove(p); err == nil {
+				_ = os.Symlink(newTarget, p)
+			}
+		}
+		return nil
+	})
 }
 
 // Copies a symlink to the outs directory.  If the symlink was absolute, this
@@ -543,6 +630,10 @@ func copyOutSymlink(w *bytes.Buffer, param *syntax.StructMember,
 			_, err := w.Write(b)
 			return err
 		}
+	}
+	// Relative links are relative to where the link physically is.
+	if physPath, ok := movedToOuts(filePath, pipestancePath); ok {
+		filePath = physPath
 	}
 	var p string
 	p, err := os.Readlink(filePath)
